@@ -149,3 +149,7 @@ def run(ctx):
     ctx.coverage["rule"] = ("G.711: complete enumeration of 256 codes x 6 read entry points and 65536 shorts x 6 write entry points per law "
                             "(s32 with 3 low-word patterns, float/double normalised and not), plus the float rounding boundaries; "
                             "distinct_nontrivial counts (direction, law, entry point) streams")
+
+    # ---- 4. ADPCM decoders (IMA WAV/AIFF layouts, MS) against their reference algorithms ----
+    from .. import c20_adpcm
+    c20_adpcm.run_adpcm(ctx)
